@@ -174,7 +174,6 @@ MutateHeld(i, op) ==
     LET r == MutateOp(store, held, i, op) IN
     /\ Len(hist) < MaxHist
     /\ i \in 1..Len(held)
-    /\ op = "pop" => Len(HeldVal(store, held[i])) > 0
     /\ store' = r.store
     /\ held' = r.held
     /\ last' = [NoLast EXCEPT !.ev = "MutateHeld"]
@@ -220,7 +219,12 @@ Extend(name) ==
 
 ReadStep ==
     \/ \E a \in Asks, c \in CutArgs : Get(a[1], a[2], c)
-    \/ \E i \in 1..Len(held), op \in {"append", "pop"} : MutateHeld(i, op)
+    \/ \E i \in 1..Len(held), op \in {"append", "pop"} :
+            \* histories only pop a list that has something to pop; the action itself is total (pop of an
+            \* empty list = the caller does nothing), so a history can be replayed on a world whose series
+            \* are shorter than the instance's
+            /\ op = "pop" => Len(HeldVal(store, held[i])) > 0
+            /\ MutateHeld(i, op)
     \/ \E g \in RGroups, f \in Fmts : RenderTable(g, f)
     \/ BaseCsv
 
